@@ -274,7 +274,13 @@ macro_rules! family {
                     first = false;
                     out.push_str(&hex(bytes_of(am.as_authority())));
                 }
-                // giving the handle up returns the authority it was showing
+                // `Deref` shows the same authority; giving the handle up returns it
+                {
+                    let d: &Authority = &*am;
+                    if bytes_of(d) != bytes_of(am.as_authority()) {
+                        out.push_str("!BAD:deref");
+                    }
+                }
                 let shown = bytes_of(am.as_authority()).to_vec();
                 let fin = am.into_authority();
                 if bytes_of(fin) != &shown[..] {
@@ -554,6 +560,11 @@ macro_rules! family {
                     if it2.nth(1).map(|s| hex(bytes_of(s))) != nsegs.get(1).cloned() { bad.push("nth") }
                     // derived queries that have no field of their own
                     if p.is_relative() == p.is_absolute() { bad.push("is_relative") }
+                    {
+                        let mut via_into: Vec<String> = Vec::new();
+                        for sg in p { via_into.push(hex(bytes_of(sg))) }
+                        if via_into != segs { bad.push("into_iter") }
+                    }
                     for sg in p.segments() {
                         let b = bytes_of(sg);
                         let want = match b.iter().position(|&c| c == b':') {
